@@ -211,7 +211,7 @@ def conditions(tier, seed, active):
     for name, (d, kind, _) in SCHEMAS.items():
         tags = TAGS.get(name, ["errors0", "errors2"])
         if quick:
-            chosen = [(0, 0, 0), (3, 2, 1)] + rng.sample(codes[1:-1], 2)
+            chosen = [(0, 0, 0), (3, 2, 1)] + rng.sample(codes[1:-1], 1)
             variants = [dict(L=1, N=2, code=list(c)) for c in chosen]
         else:
             variants = [dict(L=1, N=2, code=list(c)) for c in codes] + [dict(L=2, N=2, code=[0, 0, 0]), dict(L=2, N=2, code=[3, 2, 1])]
